@@ -159,5 +159,12 @@ def get_ast(func):
     except (OSError, IOError):
         return None
     source = inspect.cleandoc('\n' + rawsource)
-    module = ast.parse(source)
-    return module.body[0]
+    try:
+        module = ast.parse(source)
+    except (SyntaxError, ValueError):
+        return None
+    node = module.body[0]
+    if not isinstance(node, (ast.FunctionDef, ast.AsyncFunctionDef)):
+        # e.g. a lambda: the source lines hold the enclosing statement
+        return None
+    return node
